@@ -200,3 +200,37 @@ Proof.
   rewrite rel_res_unfold, H in S. destruct (dec t lazy_ops bs) as [v' r'|e r']; [|contradiction].
   destruct S as [-> ->]. reflexivity.
 Qed.
+
+Lemma lazy_ext_rel x : rops_rel false (ext_rel x) lazy_ops lazy_ops.
+Proof.
+  apply mk_rops_rel; cbn [lazy_ops lr_ops r_ensure r_read1 r_readn r_skip r_gethandle]; unfold ext_rel.
+  - intros n l1 l2 ->. cbn. auto.
+  - intros l1 l2 ->. destruct l1 as [|b r]; [exact I|]. cbn. auto.
+  - intros n l1 l2 ->. destruct (take_n n l1) as [[a r]|] eqn:E; [|exact I].
+    rewrite (take_n_ext _ _ x _ _ E). cbn. auto.
+  - intros n l1 l2 ->. destruct (take_n n l1) as [[a r]|] eqn:E; [|exact I].
+    rewrite (take_n_ext _ _ x _ _ E). cbn. auto.
+  - intros h l1 l2 ->. cbn. auto.
+Qed.
+
+Theorem dec_extend_lazy t bs v rest x :
+  dec t lazy_ops bs = Ok v rest -> dec t lazy_ops (bs ++ x) = Ok v (rest ++ x).
+Proof.
+  intros H. pose proof (dec_sim false t (ext_rel x) lazy_ops lazy_ops bs (bs ++ x) (lazy_ext_rel x) eq_refl) as S.
+  rewrite H in S. unfold rel_res, rel_resg in S.
+  destruct (dec t lazy_ops (bs ++ x)) as [v' r'|e r']; [|contradiction].
+  destruct S as [-> ->]. reflexivity.
+Qed.
+
+(* a strict prefix of a complete encoding is rejected by a reader that cannot look ahead, too:
+   the missing bytes are noticed when they are read *)
+Theorem truncation_rejected_lazy t e v k :
+  dec t lr_ops e = Ok v [] -> (k < length e)%nat ->
+  forall v' r, dec t lazy_ops (firstn k e) <> Ok v' r.
+Proof.
+  intros He Hk v' r H.
+  pose proof (dec_extend_lazy t _ _ _ (skipn k e) H) as H2. rewrite firstn_skipn in H2.
+  rewrite (dec_lazy_reader t e v [] He) in H2.
+  injection H2 as _ E. symmetry in E. apply app_eq_nil in E. destruct E as [_ E].
+  apply (f_equal (@length N)) in E. rewrite skipn_length in E. cbn in E. lia.
+Qed.
